@@ -94,7 +94,9 @@ struct bresenham_line_rasterizer
             // transpose coordinate system back to proper form if needed
             *d_first++ = needs_flip ? point_t{y, x} : point_t{x, y};
             error_term += slope;
-            if (error_term >= 0.5)
+            // never step the minor coordinate past the end point's: the slope above is
+            // (|dy| + 1) / (|dx| + 1), which reaches |dy| + 1 steps when |dx| + 1 >= 4 (|dy| + 1)
+            if (error_term >= 0.5 && y != end.y)
             {
                 --error_term;
                 y += y_increment;
